@@ -256,8 +256,8 @@ class Hist1D:
         scale_factor = other.get_count() / self.get_count()
         bin_width_factor = np.mean(other.bin_width) / np.mean(self.bin_width)
         scale = scale_factor * bin_width_factor
-        self.count *= scale
-        self.error *= scale
+        self.count = self.count * scale
+        self.error = self.error * scale
         return scale
 
     def get_count(self):
@@ -307,5 +307,5 @@ class WeightedData(Hist1D):
 
     def scale_to(self, other):
         scale = super().scale_to(other)
-        self.weights *= scale
+        self.weights = self.weights * scale
         return scale
